@@ -10,6 +10,7 @@ package tables
 
 import (
 	"errors"
+	"os"
 
 	"github.com/tucats/ego/internal/defs"
 	"github.com/tucats/ego/internal/dsns"
@@ -116,8 +117,11 @@ func VerifC43_grantsAuthorizeOnlyTheirOwnTable() {
 		g.Delete = flag
 	}
 	c43Grants = []*PermissionsObject{g}
+	if !sym.Symbolic() {
+		defer c43NativeStore(g)()
+	}
 	session := &router.Session{ID: 1, User: "u", Admin: false}
-	sym.Known("C43-dsn-name-with-dot-checked-against-another-dsn", c43HasDot(svc.names[0]) || c43HasDot(table))
+	sym.Known("C43-dsn-name-with-dot-checked-against-another-dsn", c43HasDot(svc.names[0]))
 
 	allowed := Authorized(session, "u", svc.names[0]+"."+table, ops[k])
 	sym.Reach("decided")
@@ -136,4 +140,31 @@ func c43HasDot(s string) bool {
 		}
 	}
 	return false
+}
+
+// c43NativeStore: natively the grant lives in a real SQLite permission store.
+func c43NativeStore(g *PermissionsObject) func() {
+	f, err := os.CreateTemp("", "c43-*.db")
+	if err != nil {
+		panic(err)
+	}
+	f.Close()
+	h, err := resources.Open(PermissionsObject{}, "table_perms", "sqlite3://"+f.Name())
+	if err == nil {
+		err = h.CreateIf()
+	}
+	if err == nil {
+		g.ID = "1"
+		err = h.Insert(g)
+	}
+	if err != nil {
+		panic(err)
+	}
+	savedH, savedV := pHandle, pValid
+	pHandle, pValid = h, true
+	return func() {
+		pHandle, pValid = savedH, savedV
+		h.Database.Close()
+		os.Remove(f.Name())
+	}
 }
